@@ -52,7 +52,8 @@ RULE = ('(1) exhaustive: every history of length L (quick 3, thorough 4) over th
         'identifying and one referential attribute, mixed-case kinds, names and type names, histories of up to 40 '
         'ops (new with positional/keyword mixes incl. referential keywords in any spelling, set, del of present, '
         'absent and referential attributes, reads, where_eq selections, relate/unrelate, serialize, '
-        'find) with an independently chosen spelling at every use; (3) class lookup: exhaustively one lookup '
+        'find) with an independently chosen spelling at every use, a third of the where_eq filters naming one attribute twice under '
+        'two spellings with different or equal values (also as a dict and on a plain instance set); (3) class lookup: exhaustively one lookup '
         '(find_metaclass / new / select_many / select_any) under each of the 4 spellings of a 2-letter kind BEFORE '
         'define_class under each spelling, then every lookup kind under every spelling after it, plus random '
         'histories over 2-4 kinds interleaving lookups before and after each definition (spellings used before the '
@@ -344,6 +345,17 @@ def _random_case(r, maxlen, load=False):
             filt = []
             for a, t in r.sample(cattrs, r.randint(0, min(2, len(cattrs)))):
                 filt.append([respell(r, a), _value(r, t)])
+            if filt and r.random() < 0.35:
+                # the SAME attribute named twice, under two spellings: both items address the one stored value, so with
+                # different values nothing can match, with equal values the second item changes nothing
+                a0, v0 = r.choice(filt)
+                t0 = dict((nm.upper(), ty) for nm, ty in cattrs)[a0.upper()]
+                for _ in range(6):
+                    sp2 = respell(r, a0)
+                    if all(sp2 != f[0] for f in filt):
+                        filt.append([sp2, v0 if r.random() < 0.4 else _value(r, t0)])
+                        break
+                r.shuffle(filt)
             bad = kind + 'Z'
             while bad.upper() in classes:
                 bad += 'Z'
@@ -826,6 +838,17 @@ def run_impl(case):
                         q = [] if one is None else [one]
                     check_others(around, 'a selection on %r' % op[1], n)
                     res = [index_of.get(id(o), -1) for o in q]
+                    if len(set(a.upper() for a, _ in op[2])) < len(op[2]):
+                        stats['filter_names_attribute_twice'] = stats.get('filter_names_attribute_twice', 0) + 1
+                    # for contrast the same clause on a plain instance set (what a navigation applies it to): the class-level
+                    # selection and the filtered set must agree
+                    if nm == 'sel' and K in orc.classes:
+                        pool = list(m.find_metaclass(op[1]).storage)
+                        plain = [index_of.get(id(o), -1) for o in x.where_eq(**dict((k, v) for k, v in op[2]))(pool)]
+                        as_dict = [index_of.get(id(o), -1) for o in m.select_many(op[1], dict((k, v) for k, v in op[2]))]
+                        if plain != res or as_dict != res:
+                            fail('where-eq-differs', 'select_many(%r, where_eq(%s)) gave %r, the same clause applied to the plain '
+                                 'instance set gives %r, passed as a dict %r' % (op[1], op[2], res, plain, as_dict), n)
                     if K in orc.classes:
                         want, known = [], True
                         for i, k in enumerate(orc.inst_kind):
